@@ -4,6 +4,7 @@ open Jomini.Props.C08
 #print axioms C08_codec
 #print axioms C08_codec_exclusions
 #print axioms C08_prefix_stable
+#print axioms C08_lexer_api
 #print axioms C08_Buffer_refines
 #print axioms C08_Buffer_refines_init
 #print axioms C08_stream_eq_lexer
